@@ -4,7 +4,9 @@ package main
 //
 // Drives the REAL processing/gpkg.TargetGeopackage (Init, CreateTables, WriteFeatures over a channel,
 // Close) of /repo's working tree, reads the written file back with database/sql, applies an oracle that
-// is independent of the Coq model, and emits correspondence cases for Texel.Corr.C12.
+// is independent of the Coq model, and emits correspondence cases for Texel.Corr.C12.  In a third of the
+// cases ("via source") the harness stores the features as rows of the source table and the writer receives
+// what the REAL SourceGeopackage.ReadFeatures delivers for them, as in the tool.
 //
 // The implementation stops the process with log.Fatalf on most errors, so the cases run in worker
 // processes (this executable re-executed as `c12worker in out dir`); a worker that dies is a violation
@@ -23,6 +25,7 @@ import (
 	"sort"
 	"strings"
 	"sync"
+	"time"
 
 	"github.com/go-spatial/geom"
 	"github.com/pdok/texel/processing"
@@ -49,6 +52,9 @@ type c12Case struct {
 	P      int         `json:"pagesize"`
 	Tables []tableSpec `json:"tables"`
 	Calls  []c12Call   `json:"calls"`
+	// ViaSource: the features of every call are stored as rows of the source table (plain SQL, in stream order) and the
+	// writer is fed with what the real ReadFeatures delivers for them, instead of features made by the harness
+	ViaSource bool `json:"via_source,omitempty"`
 }
 
 type c12Obs struct {
@@ -57,6 +63,8 @@ type c12Obs struct {
 	C1   uint32  `json:"counter_after"`
 	File obsFile `json:"file"`
 	Err  string  `json:"err,omitempty"`
+	// via source: what ReadFeatures delivered differs from the rows (first few differences)
+	Read []string `json:"read_differences,omitempty"`
 }
 
 // ---- the implementation run (worker side) ------------------------------------------------------------
@@ -81,6 +89,25 @@ func runC12Case(dir string, k c12Case) (o c12Obs) {
 		o.Err = "harness: creating the source: " + err.Error()
 		return o
 	}
+	if k.ViaSource {
+		for _, ts := range k.Tables {
+			var attrs [][]val
+			var geoms []geom.Geometry
+			for _, call := range k.Calls {
+				if call.Table == ts.Name {
+					for _, f := range call.Feats {
+						attrs = append(attrs, f.Attrs)
+						geoms = append(geoms, f.G.toGeom())
+					}
+				}
+			}
+			if err := insertRows(h, ts, attrs, geoms); err != nil {
+				h.Close()
+				o.Err = "harness: filling the source table " + ts.Name + ": " + err.Error()
+				return o
+			}
+		}
+	}
 	h.Close()
 
 	// gpkg.Table has unexported fields: the values come from the implementation's own GetTableInfo
@@ -102,6 +129,37 @@ func runC12Case(dir string, k c12Case) (o c12Obs) {
 		tables = append(tables, t)
 	}
 
+	// via source: the real reader delivers the rows of every table (all calls of the table, in order)
+	read := map[string][]processing.Feature{}
+	if k.ViaSource {
+		for _, ts := range k.Tables {
+			fmt.Fprintf(os.Stderr, "[c12worker] case %d: ReadFeatures of %s\n", k.ID, ts.Name)
+			rs := tg.SourceGeopackage{Table: byName[ts.Name]}
+			rs.Init(src)
+			ch := make(chan processing.Feature)
+			go rs.ReadFeatures(ch)
+			for f := range ch {
+				read[ts.Name] = append(read[ts.Name], f)
+			}
+			rs.Close()
+			var want []c12Feat
+			for _, call := range k.Calls {
+				if call.Table == ts.Name {
+					want = append(want, call.Feats...)
+				}
+			}
+			if len(read[ts.Name]) != len(want) {
+				o.Err = fmt.Sprintf("ReadFeatures delivers %d features for the %d rows of %s", len(read[ts.Name]), len(want), ts.Name)
+				return o
+			}
+			for i, f := range read[ts.Name] {
+				if d := readDifference(f.Columns(), want[i].Attrs); d != "" && len(o.Read) < 5 {
+					o.Read = append(o.Read, fmt.Sprintf("table %s row %d: %s", ts.Name, i, d))
+				}
+			}
+		}
+	}
+
 	t := tg.TargetGeopackage{}
 	t.Init(tgt, k.P)
 	if err := t.CreateTables(tables); err != nil {
@@ -115,12 +173,20 @@ func runC12Case(dir string, k c12Case) (o c12Obs) {
 		ch := make(chan processing.Feature)
 		done := make(chan struct{})
 		go func() { defer close(done); t.WriteFeatures(ch) }()
-		for _, f := range call.Feats {
-			var cols []interface{} // built by repeated append, as ReadFeatures does (spare capacity)
-			for _, a := range f.Attrs {
-				cols = append(cols, a.goValue())
+		if k.ViaSource {
+			n := len(call.Feats)
+			for _, f := range read[call.Table][:n] {
+				ch <- f
 			}
-			ch <- c12Feature{cols: cols, g: f.G.toGeom()}
+			read[call.Table] = read[call.Table][n:]
+		} else {
+			for _, f := range call.Feats {
+				var cols []interface{} // built by repeated append, as ReadFeatures does (spare capacity)
+				for _, a := range f.Attrs {
+					cols = append(cols, a.goValue())
+				}
+				ch <- c12Feature{cols: cols, g: f.G.toGeom()}
+			}
 		}
 		close(ch)
 		<-done
@@ -129,6 +195,33 @@ func runC12Case(dir string, k c12Case) (o c12Obs) {
 	o.C1 = changeCounter(tgt)
 	o.File = readFile(tgt)
 	return o
+}
+
+// readDifference: the attribute values a feature of ReadFeatures carries against the values of the row it was read from:
+// the same Go values the harness itself would hand to the writer (int64, float64, string, []byte for a blob, bool for a
+// BOOLEAN cell, time.Time for a date/time cell, nil) -- "" when equal
+func readDifference(got []interface{}, want []val) string {
+	if len(got) != len(want) {
+		return fmt.Sprintf("%d attribute values for %d attribute columns", len(got), len(want))
+	}
+	for i, w := range want {
+		g, e := got[i], w.goValue()
+		same := false
+		switch ev := e.(type) {
+		case []byte:
+			gb, ok := g.([]byte)
+			same = ok && gb != nil && bytes.Equal(gb, ev)
+		case time.Time:
+			gt, ok := g.(time.Time)
+			same = ok && gt.Equal(ev)
+		default:
+			same = g == e
+		}
+		if !same {
+			return fmt.Sprintf("attribute %d is %T(%v), the row holds %T(%v)", i, g, g, e, e)
+		}
+	}
+	return ""
 }
 
 // c12Worker: `harness_gpkg c12worker <cases.json> <out.jsonl> <dir>`
@@ -223,6 +316,7 @@ func genTable(r *rand.Rand, idx int, srs srsSpec) tableSpec {
 	}
 	cols = append(cols[:gPos:gPos], append([]colSpec{g}, cols[gPos:]...)...)
 	t.Cols = cols
+	decorateTable(&t, 0)
 	t.Defaults = genDefaults(t)
 	return t
 }
@@ -288,7 +382,20 @@ func genAttr(r *rand.Rand, c colSpec) val {
 	switch {
 	case isTimeType(c.Type):
 		return genTime(r, c.Type)
+	case isBoolType(c.Type): // the cells of a BOOLEAN column: NULL (above), 0, 1
+		return val{K: 6, I: int64(r.Intn(2))}
+	case isBlobType(c.Type): // mostly blobs; a text or an integer keeps its storage class in such a column too
+		switch r.Intn(8) {
+		case 0:
+			return val{K: 3, T: r.Intn(len(textPool))}
+		case 1:
+			return val{K: 1, I: r.Int63n(2001) - 1000}
+		}
+		return val{K: 5, T: r.Intn(len(blobPool))}
 	case strings.HasPrefix(c.Type, "TEXT"):
+		if r.Intn(10) == 0 { // a blob in a TEXT column stays a blob
+			return val{K: 5, T: r.Intn(len(blobPool))}
+		}
 		return val{K: 3, T: r.Intn(len(textPool))}
 	case c.Type == "REAL" || c.Type == "DOUBLE":
 		return val{K: 2, R: r.Int63n(2000001) - 1000000}
@@ -333,6 +440,9 @@ func genTime(r *rand.Rand, typ string) val {
 // (SQLite assigns max+1).  emptyMode 0: ~20% empty geometries, 1: all empty, 2: none empty.
 func genStream(r *rand.Rand, t tableSpec, n int, pkMode int, last *int64, emptyMode int) []c12Feat {
 	fs := make([]c12Feat, n)
+	if !t.pkIsRowid() {
+		pkMode = 0 // a key that is no rowid alias is not assigned by SQLite: NULL would stay NULL
+	}
 	mixed := t.GType == "GEOMETRY" || t.GType == "GEOMETRYCOLLECTION" || r.Intn(3) == 0
 	for i := range fs {
 		var attrs []val
@@ -356,11 +466,43 @@ func genStream(r *rand.Rand, t tableSpec, n int, pkMode int, last *int64, emptyM
 		empty := emptyMode == 1 || (emptyMode == 0 && r.Intn(5) == 0)
 		fs[i] = c12Feat{Attrs: attrs, G: genGeom(r, kind, empty)}
 	}
+	shuffleKeys(r, t, fs)
 	return fs
+}
+
+// shuffleKeys: for a table whose primary key is NO alias of the rowid (INT PRIMARY KEY, TEXT PRIMARY KEY) the keys of the
+// stream are permuted, so that the order in which the rows are stored (and must be copied) is not the key order; a TEXT key
+// becomes a 16-digit text
+func shuffleKeys(r *rand.Rand, t tableSpec, fs []c12Feat) {
+	if t.pkIsRowid() {
+		return
+	}
+	ai := -1
+	for i, c := range t.attrCols() {
+		if c.PK == 1 {
+			ai = i
+		}
+	}
+	if ai < 0 {
+		return
+	}
+	perm := r.Perm(len(fs))
+	keys := make([]val, len(fs))
+	for i := range fs {
+		keys[i] = fs[perm[i]].Attrs[ai]
+	}
+	for i := range fs {
+		k := keys[i]
+		if strings.EqualFold(t.pkType(), "TEXT") && k.K == 1 {
+			k = val{K: 7, I: k.I}
+		}
+		fs[i].Attrs[ai] = k
+	}
 }
 
 func genC12Case(r *rand.Rand, id, p, n int) c12Case {
 	k := c12Case{ID: id, P: p}
+	k.ViaSource = r.Intn(3) == 0
 	srsMode := []int{0, 0, 0, 1, 2}[r.Intn(5)]
 	ntab := 1
 	if r.Intn(7) == 0 {
@@ -380,6 +522,9 @@ func genC12Case(r *rand.Rand, id, p, n int) c12Case {
 		k.Tables = append(k.Tables, genTable(r, i, s))
 	}
 	pkMode := r.Intn(2)
+	if k.ViaSource {
+		pkMode = 0 // the rows are stored in the source first: the keys are there before the writer sees them
+	}
 	emptyMode := []int{0, 0, 0, 0, 0, 0, 1, 2}[r.Intn(8)]
 	lasts := make([]int64, ntab)
 	for i := range lasts {
@@ -424,7 +569,54 @@ func genC12Case(r *rand.Rand, id, p, n int) c12Case {
 	}
 	k.Class = fmt.Sprintf("tables=%d srs=%s pk=%s empty=%s", ntab, []string{"own id", "pre-seeded id, library content", "pre-seeded id, other content (F10 regression)"}[srsMode],
 		[]string{"explicit", "auto"}[pkMode], []string{"some", "all", "none"}[emptyMode])
+	if k.ViaSource {
+		k.Class += " via-source"
+	}
 	return k
+}
+
+// F18 / F19 / F20 regressions (fixed by 574d563, 4dc32dc, a631213) and the order of a table whose key is no rowid alias:
+// BOOLEAN cells (NULL / 0 / 1), BLOB cells (with NUL bytes, invalid UTF-8, the bytes of a text another row holds as text),
+// column names that are SQL keywords or contain a space / a dash / a double quote, the geometry column named by a keyword;
+// the rows are stored in the source with keys out of order and read by the real ReadFeatures
+func c12RegressionF18to20(id int, variant int) c12Case {
+	srs := srsSpec{Name: "Amersfoort / RD New", ID: 28992, Org: "EPSG", OrgID: 28992, Def: "PROJCS[...]", Desc: "rd"}
+	pk := colSpec{Name: "order", Type: "INTEGER", NotNull: true, PK: 1}
+	gcol := "select"
+	switch variant {
+	case 1:
+		pk = colSpec{Name: "group by", Type: "INT", NotNull: true, PK: 1}
+		gcol = "1geom"
+	case 2:
+		pk = colSpec{Name: "id-nr", Type: "TEXT", PK: 1}
+		gcol = "table"
+	}
+	t := tableSpec{Name: "t1", GCol: gcol, GType: "POINT", Srs: srs, Cols: []colSpec{pk,
+		{Name: "street name", Type: "TEXT"}, {Name: gcol, Type: "POINT"}, {Name: `a"b`, Type: "BLOB"}, {Name: "Flag", Type: "BOOLEAN", NotNull: variant == 1},
+		{Name: "huis-nr", Type: "boolean"}, {Name: "where", Type: "REAL"}}}
+	keys := []int64{40, 10, 30, 20, 50, 5, 45}
+	var fs []c12Feat
+	for i, key := range keys {
+		kv := val{K: 1, I: key}
+		if variant == 0 {
+			kv.I = int64(i + 1) // a rowid alias: stored order is key order whatever is done
+		}
+		if variant == 2 {
+			kv = val{K: 7, I: key*1000000000 + 599200000}
+		}
+		b2 := val{K: 6, I: int64((i / 2) % 2)}
+		if i == 3 {
+			b2 = val{}
+		}
+		blob := val{K: 5, T: i % len(blobPool)}
+		if i == 5 {
+			blob = val{K: 3, T: 1} // the text "a" in the BLOB column; row 3 holds the blob with the same byte
+		}
+		fs = append(fs, c12Feat{Attrs: []val{kv, {K: 3, T: i % len(textPool)}, blob, {K: 6, I: int64(i % 2)}, b2, {K: 2, R: int64(i)}},
+			G: geomSpec{Kind: 1, Parts: [][][][2]int64{{{{int64(i), int64(2 * i)}}}}}})
+	}
+	return c12Case{ID: id, Class: fmt.Sprintf("regression F18-F20 (BOOLEAN / BLOB cells, quoted names, key kind %s) via-source", pk.Type), P: 3,
+		Tables: []tableSpec{t}, Calls: []c12Call{{Table: "t1", Feats: fs}}, ViaSource: true}
 }
 
 // F9 regression (fixed by 16e3a13): an empty point in the middle of the stream reset the recorded extent
@@ -466,6 +658,9 @@ func c12Oracle(k c12Case, o c12Obs) []c12Problem {
 	if o.File.Err != "" {
 		bad("the written file cannot be read back: "+o.File.Err, o.File.Err, "a readable GeoPackage")
 		return ps
+	}
+	if len(o.Read) > 0 {
+		bad("ReadFeatures does not deliver the rows of the source table in the order the table stores them, each with the values it holds: "+o.Read[0], o.Read, "the Go value of the cell: int64, float64, string for a text, []byte for a blob, bool for a BOOLEAN cell, time.Time for a date/time cell, nil")
 	}
 	if o.File.AppID != 0x47504B47 {
 		bad("application_id is not GPKG", o.File.AppID, 0x47504B47)
@@ -700,14 +895,25 @@ func c12CoqCase(k c12Case, o c12Obs) string {
 		} else if ot.Extent[0] != nil || ot.Extent[1] != nil || ot.Extent[2] != nil || ot.Extent[3] != nil {
 			ext = &bbox{2, 2, -2, -2} // partly NULL
 		}
-		var rts []string
+		// the rtree entries as (position of the row with that key, box), in the order of the positions: the model lists them
+		// in insertion order, the file by id = key, and the keys of a table whose key is no rowid alias are not in stream order
+		type rtPos struct {
+			p int
+			s string
+		}
+		var byPos []rtPos
 		for _, e := range ot.Rtree {
 			p, ok := pos[e.ID]
 			if !ok {
 				p = 999999
 			}
 			b := bbox{int64(e.MinX), int64(e.MinY), int64(e.MaxX), int64(e.MaxY)}
-			rts = append(rts, fmt.Sprintf("(%d%%N, %s)", p, b.coq()))
+			byPos = append(byPos, rtPos{p, fmt.Sprintf("(%d%%N, %s)", p, b.coq())})
+		}
+		sort.SliceStable(byPos, func(a, b int) bool { return byPos[a].p < byPos[b].p })
+		var rts []string
+		for _, e := range byPos {
+			rts = append(rts, e.s)
 		}
 		otabs = append(otabs, fmt.Sprintf("MkOTable %s %s %s %s", coqString(ot.Name), hc.CoqList(rows), coqOptBBox(ext), hc.CoqList(rts)))
 		code, ok := gtypeCode[ot.GType]
@@ -821,12 +1027,15 @@ func runC12Cases(dir string, cases []c12Case, workers int) (map[int]c12Result, e
 func runC12(c *hc.Ctx) error {
 	c.CorrInit("Texel.Corr.C12", "theories/Corr/C12.v", 40)
 	c.Sum.Rule = "every (page size p in 1..7, feature count n in 0..3p+1) pair several times, plus p in {50,1000}; per case random tables " +
-		"(0-5 attribute columns INTEGER/MEDIUMINT/REAL/DOUBLE/TEXT/TEXT(20)/DATETIME/DATE/TIMESTAMP, NOT NULL or not, key column first or elsewhere, geometry column first/middle/last, " +
+		"(0-5 attribute columns INTEGER/MEDIUMINT/REAL/DOUBLE/TEXT/TEXT(20)/DATETIME/DATE/TIMESTAMP, NOT NULL or not, key column first or elsewhere, geometry column first/middle/last; " +
+		"as a function of the table: in two thirds of the tables some attribute columns declared BOOLEAN / boolean (cells NULL, 0, 1; the writer receives the Go bool the driver makes of such a cell) or BLOB (cells of arbitrary bytes: empty, NUL, invalid UTF-8, the bytes of a text of the text pool; now and then a text or an integer in a BLOB column and a blob in a TEXT column), " +
+		"in half of the tables column names that must be quoted (SQL keywords order / group / select / table / from / where / index / values, names with a space, a dash, a leading digit, a double quote, an apostrophe, a comma, a semicolon, parentheses, a percent sign, a leading space, non-ASCII) for attribute columns, in a third of those also for the primary key (no double quote: the GeoPackage library writes it as \"name\") and the geometry column (keyword / leading digit / non-ASCII only: the library writes it bare inside rtree_<table>_<column>_insert), " +
+		"in a quarter of the tables a primary key that is no rowid alias (INT PRIMARY KEY, TEXT PRIMARY KEY with 16-digit texts) whose keys are NOT in stream order, " +
 		"8 geometry type names, z / m prohibited (0) or optional (2) in the source's gpkg_geometry_columns, the source's recorded extent NULL / exact / loose (larger) / stale (elsewhere) and computed over the written features or over more features than are handed to the writer (a prefix of the source; nothing when n = 0), srs with an id of its own / pre-seeded id with library content / pre-seeded id with other content), 1-3 tables per file, " +
-		"one WriteFeatures call per table (sometimes a second call on the first table), values NULL/integer (incl. int64 extremes)/real/text (quotes, unicode, empty, long)/time.Time (what ReadFeatures delivers for DATE, DATETIME, TIMESTAMP columns: midnight, whole seconds, non-zero milliseconds, nanoseconds, before 1970), " +
+		"one WriteFeatures call per table (sometimes a second call on the first table); in a third of the cases (via-source) the harness stores the features as rows of the source table in stream order and the writer is fed by the REAL SourceGeopackage.ReadFeatures, otherwise with features made by the harness; three fixed cases (BOOLEAN + BLOB + quoted names + key kinds INTEGER / INT / TEXT, via-source); values NULL/integer (incl. int64 extremes)/real/text (quotes, unicode, empty, long)/time.Time (what ReadFeatures delivers for DATE, DATETIME, TIMESTAMP columns: midnight, whole seconds, non-zero milliseconds, nanoseconds, before 1970), " +
 		"geometries point/linestring/polygon(with hole)/multipoint/multilinestring/multipolygon, ~20% empty (POINT EMPTY = NaN, no-point geometries) or all empty or none, " +
 		"keys explicit increasing with gaps or NULL (assigned by SQLite: insertion order observable). distinct = distinct (p, n, class, schema shape); non-trivial = n > 0"
-	c.Sum.Oracle = "on the file written by the real TargetGeopackage, read back with database/sql: one row per feature in stream order with equal attribute values (date/time cells read raw and compared as instants to the nanosecond: the driver writes a time.Time in its own text layout) and an equal decoded geometry " +
+	c.Sum.Oracle = "on the file written by the real TargetGeopackage, read back with database/sql in the order the table STORES the rows (ORDER BY rowid, not by key): one row per feature in stream order with equal attribute values AND equal storage class (every attribute cell is read raw as +\"c\" together with typeof(\"c\"): a TEXT and a BLOB of the same bytes differ; a BOOLEAN cell is the integer 0 / 1; date/time cells compared as instants to the nanosecond: the driver writes a time.Time in its own text layout) and an equal decoded geometry; via-source: every feature ReadFeatures delivers carries the Go values of its row (int64, float64, string, []byte, bool, time.Time, nil) " +
 		"(GeoPackage header srs id and empty flag), rtree = one (key, bbox) entry per row with a non-empty geometry, gpkg_contents extent = bounding box of all written coordinates (NULL if none) whatever extent the source records, gpkg_geometry_columns z = m = 0 whatever the source says, " +
 		"PRAGMA table_info / gpkg_contents / gpkg_geometry_columns / gpkg_spatial_ref_sys rows equal the source's, rtree extension registered, " +
 		"SQLite change counter = one transaction per non-empty page + one extent update per page that enlarges the bounding box; a run that ends in log.Fatalf is a violation"
@@ -840,8 +1049,9 @@ func runC12(c *hc.Ctx) error {
 		"features satisfy the table's constraints (NOT NULL, unique key), as rows read from a source table with the same constraints do",
 		"values match the declared column affinity (SQLite would convert them otherwise, also in a source table)",
 		"coordinates are integers below 2^23 in absolute value (exact in float64 and in the rtree's float32)",
-		"column names are legal bare SQLite identifiers (ASCII letters, digits, underscore, characters above U+007F such as ², ß, é, no-break space); column defaults / CHECK / UNIQUE constraints are not part of 'columns' (createSQL copies name, type, NOT NULL, PRIMARY KEY only)",
-		"single-column integer primary key (a GeoPackage requirement)",
+		"column names are any non-empty texts, distinct without regard to case (the tool writes them as quoted identifiers since fix a631213); NOT generated, because the GeoPackage library (go-spatial AddGeometryTable) fails on them: a geometry column name with characters that cannot continue a bare identifier (space, dash, quote), a primary key name with a double quote, table names with quotes; column defaults / CHECK / UNIQUE constraints are not part of 'columns' (createSQL copies name, type, NOT NULL, PRIMARY KEY only)",
+		"single-column primary key: INTEGER (rowid alias, a GeoPackage requirement) or INT / TEXT (no rowid alias; the library's rtree takes the integer value of the key as id)",
+		"the cells of a BOOLEAN column are NULL, 0 or 1 (the SQLite driver hands any other integer z over as z > 0, so the tool would write 1 / 0 for it); a feature table has a primary key; the geometry column is registered in gpkg_geometry_columns in the letter case the table declares",
 		"the source's srs rows have a non-NULL description (getSpatialReferenceSystem reads NULL as the empty string, which is what the target then holds)",
 	}
 
@@ -860,6 +1070,9 @@ func runC12(c *hc.Ctx) error {
 		cases = []c12Case{k}
 	} else {
 		cases = append(cases, c12RegressionF9(0))
+		for v := 0; v < 3; v++ {
+			cases = append(cases, c12RegressionF18to20(len(cases), v))
+		}
 		reps := c.N(10, 150)
 		if c.Search {
 			reps *= 4
@@ -914,6 +1127,12 @@ func runC12(c *hc.Ctx) error {
 			c.Count("source records extent: " + t.SrcExtentMode)
 			c.Count(fmt.Sprintf("source z=%d m=%d", t.Z, t.M))
 			c.Count(defaultsClass(t))
+			for _, kind := range tableKinds(t) {
+				c.Count(kind)
+			}
+		}
+		if k.ViaSource {
+			c.Count("via-source: the writer is fed by the real ReadFeatures")
 		}
 		c.Count(fmt.Sprintf("p=%d", k.P))
 		switch {
@@ -931,7 +1150,7 @@ func runC12(c *hc.Ctx) error {
 		}
 		r := results[k.ID]
 		if r.Died {
-			c.Violate(hc.Violation{What: "the writer terminated the process (log.Fatalf / panic) on a valid stream", Input: k, Observed: r.Stderr, Expected: "a written file"})
+			c.Violate(hc.Violation{What: "the tool's code (GetTableInfo / ReadFeatures / CreateTables / WriteFeatures) terminated the process (log.Fatalf / panic) on a valid source and stream", Input: k, Observed: r.Stderr, Expected: "a written file"})
 			continue
 		}
 		for _, p := range c12Oracle(k, r.Obs) {
@@ -945,7 +1164,7 @@ func runC12(c *hc.Ctx) error {
 		} else if r.Obs.Err == "" && r.Obs.File.Err == "" {
 			c.Case(c12CoqCase(k, r.Obs), map[string]any{"case": k, "observed_counter_delta": r.Obs.C1 - r.Obs.C0})
 		}
-		if k.ID >= 1 && k.ID <= 3 {
+		if k.ID >= 4 && k.ID <= 6 {
 			c.Sample(map[string]any{"pagesize": k.P, "tables": k.Tables, "n_features": n, "class": k.Class})
 		}
 	}
